@@ -10,6 +10,7 @@ mod c02;
 mod c01;
 mod c17;
 mod c18;
+mod c19;
 mod inputs;
 
 #[path = "/repo/harper-ls/src/git_commit_parser.rs"]
@@ -30,6 +31,7 @@ fn main() {
         "c01" => c01::main(&a),
         "c17" => c17::main(&a),
         "c18" => c18::main(&a),
+        "c19" => c19::main(&a),
         other => {
             eprintln!("unknown subcommand {other}");
             std::process::exit(2);
